@@ -203,7 +203,8 @@ Qed.
 Section Step.
   Variables (e : cfg) (gs : list graph) (glo : lopts).
   Hypotheses (Hks : ks e = true) (Hsl : strlit_invalid e = false) (H9 : fix9 e = true) (H14 : fix14 e = true)
-             (Hoid : fixoid e = true) (Hsb : fixsb e = true) (Hz : fixzone e = true) (Hnd : forallb graph_nodup gs = true).
+             (Hoid : fixoid e = true) (Hsb : fixsb e = true) (Hz : fixzone e = true) (Hs3 : fixs3 e = true)
+             (Hnd : forallb graph_nodup gs = true).
 
   (* the unspecialised fetch *)
   Lemma fetch_spec_extend : forall c, d3c c ->
@@ -274,7 +275,12 @@ Section Step.
                Forall2 row_equiv (trows t') (spec_step glo gs c mus) /\
                inv (tb t') (spec_step glo gs c mus) /\ tb t' <> [].
   Proof.
-    intros c t mus D Hne Hrows Hinv. unfold process_clause. rewrite (d_spec3 c D). unfold process_general.
+    intros c t mus D Hne Hrows Hinv.
+    assert (Hgen : process_clause e gs glo c t = process_general e gs glo c t).
+    { unfold process_clause. destruct (specificity3 c) eqn:E3; [|reflexivity].
+      destruct (d_spec3 c D) as [X|Ha]; [congruence|]. rewrite Ha, Hs3. cbn [negb andb orb]. rewrite andb_false_r. cbn [orb].
+      destruct (tb t); [congruence|reflexivity]. }
+    rewrite Hgen. unfold process_general.
     rewrite (spec_step_one glo gs c mus).
     assert (Hinv' : inv (add_all (tb t) (clause_bindings c)) (flat_map (spec_one glo gs c) mus)).
     { intros x Hx. apply in_flat_map in Hx. destruct Hx as [mu [Hmu Hx]]. eapply spec_one_keys; eauto. }
@@ -346,12 +352,12 @@ Section Step.
   Qed.
 
   (* ---------- the first clause (never OPTIONAL; empty table, unit of the join on the specification side) *)
-  Lemma first_clause_spec : forall c, d3c c -> c_opt c = false ->
+  Lemma first_clause_spec : forall c, d3c c -> c_opt c = false -> specificity3 c = false ->
     exists t', process_clause e gs glo c empty_table = Ok (false, t') /\
                Forall2 row_equiv (trows t') (spec_step glo gs c [[]]) /\
                inv (tb t') (spec_step glo gs c [[]]) /\ tb t' <> [].
   Proof.
-    intros c D Hopt. unfold process_clause. rewrite (d_spec3 c D). unfold process_general. cbn [tb trows empty_table filter].
+    intros c D Hopt H3. unfold process_clause. rewrite H3. unfold process_general. cbn [tb trows empty_table filter].
     assert (E0 : filter (fun b => mem b []) (clause_bindings c) = []).
     { induction (clause_bindings c) as [|x l IH]; cbn; auto. }
     rewrite E0. destruct (fetch_spec_extend c D) as [F [EF HF]]. rewrite EF. cbn [bind].
@@ -388,12 +394,12 @@ Section Step.
 
   (* the planner's table after the whole pattern = the specification's sequence of steps: conjunctive step for plain
      clauses, left outer join with NULL extension for OPTIONAL ones *)
-  Theorem pattern_is_solutions : forall c cs, Forall d3c (c :: cs) -> c_opt c = false ->
+  Theorem pattern_is_solutions : forall c cs, Forall d3c (c :: cs) -> c_opt c = false -> specificity3 c = false ->
     exists t', process_pattern e gs glo (c :: cs) empty_table = Ok t' /\
                Forall2 row_equiv (trows t') (spec_solutions glo gs (c :: cs)).
   Proof.
-    intros c cs HD Hopt. inversion HD as [|? ? Dc Dcs]; subst.
-    destruct (first_clause_spec c Dc Hopt) as [t1 [E1 [R1 [I1 N1]]]].
+    intros c cs HD Hopt H3. inversion HD as [|? ? Dc Dcs]; subst.
+    destruct (first_clause_spec c Dc Hopt H3) as [t1 [E1 [R1 [I1 N1]]]].
     cbn [process_pattern]. rewrite E1. cbn [bind fst snd].
     unfold spec_solutions. cbn [fold_left]. apply process_pattern_spec; assumption.
   Qed.
